@@ -2,8 +2,8 @@
 
 T  theorems in coq/syn/C11Props.v about the two layers of the formatter that can be stated without its
    1 900-line renderer: render_format_options as the inverse of StringFormatOptions::parse
-   (format_spec_roundtrip: REFUTED on the faithful model -- the representation is dropped; proved outside
-   that class) and FormatContext::source_slice composed with lexer spans (slice_is_token_text under "every
+   (format_spec_roundtrip: holds at full strength for every option string since koto 06483c8 -- it was
+   refuted before, the representation was dropped) and FormatContext::source_slice composed with lexer spans (slice_is_token_text under "every
    character before the token on its line is one column per byte"; refuted beyond, with a panic witness).
    format_node / GroupBuilder / render are NOT modelled: meaning preservation and idempotence are
    SEARCHED, not proved.
@@ -27,22 +27,20 @@ PID = "C11"
 UNIT = "syn"
 
 PINNED = [
-    "format_spec_roundtrip_refuted", "format_spec_roundtrip_partial", "format_spec_roundtrip_fixed",
-    "render_ignores_representation",
+    "format_spec_roundtrip", "render_writes_representation",
     "slice_is_token_text", "slice_refuted", "slice_panics",
 ]
 
+# FIXED in /repo (a fixed entry suppresses nothing; the witnesses stay in corpus/C11 and a recurrence is a VIOLATION):
+#   C11a e32ec60 wildcard import lost its `*`;  C11b 06483c8 format-spec representation dropped;
+#   C11f (threshold-0 half) 0f09f59 chain_break_threshold = 0 broke every chain.
+
 KNOWN = {
-    "wildcard_import": "C11a the formatter drops the `*` of a wildcard import (`from m import *` -> `from m import `), "
-                       "the output no longer parses",
-    "repr_spec": "C11b the formatter drops the representation of a format spec (`{z:x}` -> `{z}`): the program prints "
-                 "something else",
     "blank_after_header": "C11e a blank line directly after a block header (`if c` / blank / indented body) makes the "
                           "formatter emit the body without indentation: the output does not parse",
-    "forced_chain_break": "C11f a chain that chain_break_threshold forces onto several lines is broken even where the "
+    "forced_chain_break": "C11f a chain that chain_break_threshold (> 0) forces onto several lines is broken even where the "
                           "grammar does not allow it (inside an `if` condition, an inline if, brackets): the output does not "
-                          "parse; and chain_break_threshold = 0 does not disable the threshold (documented) but breaks EVERY "
-                          "chain",
+                          "parse",
     "comment_mid_expression": "C11g a comment in the middle of an expression (inside brackets / parentheses, or after `=`, an "
                               "operator or a comma at a line end) is moved in front of what follows (`] # note[0]` swallows "
                               "`[0]`) or the rest is re-indented differently on every pass",
